@@ -315,6 +315,76 @@ def rule_d_zero_fill(ctx, fn):
         ctx.ob("C11.d-new-elements-zeroed", fid, "zero-fill:" + part, ok, fn.where(), det if ok else "newly exposed elements not covered: " + det)
 
 
+def rule_e_bulk_write_fits(ctx, fn):
+    """Every bulk write std::copy(src, src+n, this->begin()) in a VectorWithOffset member must fit the storage: either the range was
+    just established by resize()/grow() with n == length (post-condition of resize), or (capacity re-use) the current range was reset
+    to the START of the allocation (length = 0, start = 0, num = begin_allocated_memory) before the capacity test, the capacity is
+    tested against / reserved for the source's size, and the length is taken from the source - on every path.  (Defect F10 and its
+    independent re-introduction: a vector shrunk at the left re-used `capacity()` elements counted from the middle of the block.)"""
+    from engine.tree import root_of_lvalue, written_lvalues
+
+    cfg = CFG(fn)
+    copies = [c for c in fn.calls() if c.callee == "std::copy" and len(c.call_args()) == 3 and key(c.call_args()[2].strip()) == "this.begin()"]
+    n = 0
+    for ci, c in enumerate(copies):
+        a0, a1 = key(c.call_args()[0].strip()), key(c.call_args()[1].strip())
+        fid = fn.qn + "(" + fn.sig[:40] + ")"
+
+        def assigns(field, valuekey):
+            return [m for m in fn.walk() if m.k == "BinaryOperator" and m.op == "=" and key(m.c[0].strip()) == "this." + field and key(m.c[1].strip()) in valuekey and m.i in cfg.pos]
+
+        def writers(fields):
+            out = []
+            for m in fn.walk():
+                if m.i not in cfg.pos:
+                    continue
+                for e in written_lvalues(m):
+                    if root_of_lvalue(e) in fields:
+                        out.append(m)
+            return out
+
+        # case A: established by resize()/grow() of *this, n == this->length
+        rs = [m for m in fn.walk() if m.k == "CXXMemberCallExpr" and (m.callee or "").split("::")[-1] in ("resize", "grow") and m.c and m.c[0].k == "CXXThisExpr" and cfg.dominates(m, c) and m.i != c.i]
+        if rs and a1 == "(+ %s this.length)" % a0:
+            r = rs[-1]
+            between = [w for w in writers({"this.length", "this.start", "this.num"}) if cfg.dominates(r, w) and w.i != r.i and cfg.dominates(w, c)]
+            ok = not between
+            ctx.ob("C11.e-bulk-write-fits-storage", fid, "copy@%d:after-resize" % ci, ok, c.where(), "copies this->length elements right after this->resize(...) established the range" if ok else "range changed between resize() and the copy (line %d)" % between[0].line)
+            n += 1
+            continue
+        # case B: capacity re-use: source is another vector X: copy(X.begin(), X.end(), this->begin())
+        m0 = re.fullmatch(r"(v\d+)\.begin\(\)", a0)
+        if not (m0 and a1 == m0.group(1) + ".end()"):
+            ctx.unrec(fn.qn, "bulk copy into this->begin() at line %d from a source the rule does not understand" % c.line)
+            continue
+        X = m0.group(1)
+        det = []
+        trunc = {"length": assigns("length", {"0"}), "start": assigns("start", {"0"}), "num": assigns("num", {"this.begin_allocated_memory"})}
+        captest = [m for m in fn.walk() if m.k == "IfStmt" and m.c and key(m.c[0].strip()) in ("(< this.capacity() %s.size())" % X, "(> %s.size() this.capacity())" % X)]
+        reserves = [m for m in fn.walk() if m.k == "CXXMemberCallExpr" and (m.callee or "").endswith("::reserve") and m.c and m.c[0].k == "CXXThisExpr" and [key(a.strip()) for a in m.call_args()] == [X + ".get_min_index()", X + ".get_max_index()"]]
+        uncond = [r for r in reserves if cfg.dominates(r, c)]
+        cond = [r for r in reserves if captest and any(a is captest[0].c[1] or any(b is captest[0].c[1] for b in a.ancestors()) for a in [r] + list(r.ancestors()))] if len(captest) == 1 and len(captest[0].c) == 2 else []
+        cap_ok = bool(uncond) or (len(captest) == 1 and bool(cond) and cfg.dominates(captest[0].c[0].strip(), c))
+        if not cap_ok:
+            det.append("no `if (capacity() < src.size()) reserve(src range)` (or unconditional reserve) before the copy")
+        anchor = (uncond[0] if uncond else (captest[0].c[0].strip() if captest else c))
+        for fld, lst in trunc.items():
+            good = [t for t in lst if cfg.dominates(t, anchor) and cfg.dominates(t, c)]
+            if not good:
+                det.append("%s is not reset to the start of the allocation on every path before the capacity test (so capacity() counts elements that lie before the current first element)" % fld)
+        # after the reset, only set_offset / reserve / `length = src.length` touch the range before the copy
+        lens = [m for m in fn.walk() if m.k == "BinaryOperator" and m.op == "=" and key(m.c[0].strip()) == "this.length" and key(m.c[1].strip()) in (X + ".length", X + ".size()", "(unsigned int)%s.size()" % X) and m.i in cfg.pos and cfg.dominates(m, c)]
+        if not lens:
+            det.append("length is not taken from the source before the copy")
+        resets = [t for lst in trunc.values() for t in lst]
+        stray = [w for w in writers({"this.start", "this.num", "this.length"}) if w not in resets and w not in lens and not (w.k == "CXXMemberCallExpr") and cfg.dominates(w, c) and w.i != c.i]
+        if stray:
+            det.append("start/num/length changed at line %d between the reset and the copy" % stray[0].line)
+        ctx.ob("C11.e-bulk-write-fits-storage", fid, "copy@%d:capacity-reuse" % ci, not det, c.where(), "range reset to the start of the allocation, capacity tested/reserved for the source's size, length taken from the source - on every path to the copy" if not det else "; ".join(det))
+        n += 1
+    return n
+
+
 def run(ctx):
     ctx.explanation = (
         "Decides from the source, for VectorWithOffset, NumericVectorWithOffset and Array: (a) every raw subscript X.num[i] "
@@ -360,6 +430,13 @@ def run(ctx):
             break
     else:
         ctx.fail_broken("anchor Array<1,T>::resize(int,int) instantiation not found")
+    ne = 0
+    seen_e = set()
+    for fn in defs:
+        if fn.cls == "stir::VectorWithOffset" and fn.cfg_raw and not fn.is_dependent and (fn.file, fn.line) not in seen_e and any(c.callee == "std::copy" for c in fn.calls()):
+            seen_e.add((fn.file, fn.line))
+            ne += rule_e_bulk_write_fits(ctx, fn)
+    ctx.require_count("C11.e-bulk-write-fits-storage", 2)
     ctx.require_count("C11.d-new-elements-zeroed", 3)
     ctx.stats["definitions_analysed"] = len(defs)
     ctx.require_count("C11.a-index-provenance", 60)
